@@ -9,6 +9,8 @@
 //!           | 4 two configurations | 5 `<data/>` | 6 text in policy-options | 7 `<policy-options/>`
 //!   stmt  = attrs|body      attrs = `.` | a;a;…    body = `.` | b;b;…
 //!   a = `J` xmlns:jcmd | `A<hex>` jcmd:active | `C<hex>` jcmd:comment | `O<digit>` unrelated attribute
+//!       | `B<hex>` / `P<hex>` active / comment attribute of the jcmd namespace spelt with another prefix (`j:`)
+//!       | `R` `xmlns:jcmd` bound to another namespace on this statement (its `jcmd:` attributes are unrelated then)
 //!       | `Z<hex>` raw attribute text (outside the grammar)
 //!   b = `N<hex>` name | `T<children>` | `E` term element | `M` empty element | `X` text | `D` CDATA
 //!       | `K` comment | `Z<hex>` raw XML (outside the grammar)
@@ -26,6 +28,11 @@ pub enum GAttr {
     Ns,
     Active(String),
     Comment(String),
+    /// `j:active`, `j:comment` with `xmlns:j` bound to the jcmd namespace
+    AltActive(String),
+    AltComment(String),
+    /// `xmlns:jcmd="urn:example:not-junos"` on the statement
+    Rebind,
     Other(u8),
     Raw(String),
 }
@@ -68,6 +75,9 @@ impl GAttr {
             GAttr::Ns => "J".into(),
             GAttr::Active(v) => format!("A{}", hexs(v)),
             GAttr::Comment(v) => format!("C{}", hexs(v)),
+            GAttr::AltActive(v) => format!("B{}", hexs(v)),
+            GAttr::AltComment(v) => format!("P{}", hexs(v)),
+            GAttr::Rebind => "R".into(),
             GAttr::Other(k) => format!("O{k}"),
             GAttr::Raw(v) => format!("Z{}", hexs(v)),
         }
@@ -78,16 +88,23 @@ impl GAttr {
             "J" if t.is_empty() => GAttr::Ns,
             "A" => GAttr::Active(unhexs(t)?),
             "C" => GAttr::Comment(unhexs(t)?),
+            "B" => GAttr::AltActive(unhexs(t)?),
+            "P" => GAttr::AltComment(unhexs(t)?),
+            "R" if t.is_empty() => GAttr::Rebind,
             "O" => GAttr::Other(t.parse().ok()?),
             "Z" => GAttr::Raw(unhexs(t)?),
             _ => return None,
         })
     }
-    /// token of the abstract description handed to `fetch spec`
-    fn spec_token(&self) -> Option<String> {
+    /// token of the abstract description handed to `fetch spec`; `rebound`: the statement binds the
+    /// prefix `jcmd` to another namespace, so its `jcmd:` attributes are not jcmd attributes
+    fn spec_token(&self, rebound: bool) -> Option<String> {
         match self {
-            GAttr::Ns | GAttr::Other(_) => Some("O".into()),
+            GAttr::Ns | GAttr::Other(_) | GAttr::Rebind => Some("O".into()),
+            GAttr::Active(_) | GAttr::Comment(_) if rebound => Some("O".into()),
             GAttr::Active(_) | GAttr::Comment(_) => Some(self.token()),
+            GAttr::AltActive(v) => Some(format!("A{}", hexs(v))),
+            GAttr::AltComment(v) => Some(format!("C{}", hexs(v))),
             GAttr::Raw(_) => None,
         }
     }
@@ -157,7 +174,12 @@ impl GStmt {
         if !self.body.iter().any(|b| matches!(b, GBody::Name(_))) {
             return None;
         }
-        let a = self.attrs.iter().map(|a| a.spec_token()).collect::<Option<Vec<_>>>()?;
+        let rebound = self.rebinds_jcmd();
+        // two declarations of one prefix in a start tag: not a document of the grammar
+        if rebound && self.declares_jcmd() {
+            return None;
+        }
+        let a = self.attrs.iter().map(|a| a.spec_token(rebound)).collect::<Option<Vec<_>>>()?;
         let b = self.body.iter().map(|b| b.spec_token()).collect::<Option<Vec<_>>>()?;
         Some(format!("{}|{}", seplist(a, ";"), seplist(b, ";")))
     }
@@ -166,6 +188,12 @@ impl GStmt {
     }
     fn declares_jcmd(&self) -> bool {
         self.attrs.iter().any(|a| matches!(a, GAttr::Ns))
+    }
+    fn rebinds_jcmd(&self) -> bool {
+        self.attrs.iter().any(|a| matches!(a, GAttr::Rebind))
+    }
+    fn uses_alt_prefix(&self) -> bool {
+        self.attrs.iter().any(|a| matches!(a, GAttr::AltActive(_) | GAttr::AltComment(_)))
     }
 }
 
@@ -244,6 +272,9 @@ impl Case {
                 GAttr::Ns => out.push_str(&format!("xmlns:jcmd={}", self.esc_attr(JCMD))),
                 GAttr::Active(v) => out.push_str(&format!("jcmd:active={}", self.esc_attr(v))),
                 GAttr::Comment(v) => out.push_str(&format!("jcmd:comment={}", self.esc_attr(v))),
+                GAttr::AltActive(v) => out.push_str(&format!("j:active={}", self.esc_attr(v))),
+                GAttr::AltComment(v) => out.push_str(&format!("j:comment={}", self.esc_attr(v))),
+                GAttr::Rebind => out.push_str(&format!("xmlns:jcmd={}", self.esc_attr("urn:example:not-junos"))),
                 GAttr::Other(0) => out.push_str(&format!("junos:changed-seconds={}", self.esc_attr("1700000000"))),
                 GAttr::Other(1) => out.push_str(&format!("inactive={}", self.esc_attr("inactive"))),
                 GAttr::Other(2) => out.push_str(&format!("xmlns:y={}", self.esc_attr("urn:y"))),
@@ -293,8 +324,9 @@ impl Case {
         let k = |s: &str| if self.comments == 1 { format!("<!-- {s} -->") } else { String::new() };
         let decl_on_conf = self.stmts.iter().any(|s| s.uses_jcmd() && !s.declares_jcmd());
         let conf_attrs = format!(
-            " xmlns=\"http://xml.juniper.net/xnm/1.1/xnm\"{} junos:commit-seconds=\"1700000000\"",
-            if decl_on_conf { format!(" xmlns:jcmd=\"{JCMD}\"") } else { String::new() }
+            " xmlns=\"http://xml.juniper.net/xnm/1.1/xnm\"{}{} junos:commit-seconds=\"1700000000\"",
+            if decl_on_conf { format!(" xmlns:jcmd=\"{JCMD}\"") } else { String::new() },
+            if self.stmts.iter().any(|s| s.uses_alt_prefix()) { format!(" xmlns:j=\"{JCMD}\"") } else { String::new() }
         );
         let mut po = String::new();
         let n = self.stmts.len();
@@ -395,7 +427,7 @@ fn oracle_from_case(c: &Case) -> String {
     let mut pq = vec![];
     for s in &c.stmts {
         for a in &s.attrs {
-            if let GAttr::Comment(v) = a {
+            if let GAttr::Comment(v) | GAttr::AltComment(v) = a {
                 if let Some(raw) = annotation_raw(v) {
                     pq.push((raw.to_string(), parse_display(raw)));
                 }
@@ -572,6 +604,34 @@ fn exhaustive(opts: &Opts) -> Vec<Case> {
             cases.push(plain_case(vec![witness.clone(), GStmt { attrs: attrs.clone(), body }]));
         }
     }
+    // the jcmd namespace under another prefix, the prefix `jcmd` bound to another namespace: every
+    // combination of how the annotation and the inactive flag are spelt, next to the witness
+    {
+        let comments = [GAttr::Comment(GOOD.into()), GAttr::AltComment(GOOD.into())];
+        let actives = [None, Some(GAttr::Active("false".into())), Some(GAttr::AltActive("false".into())), Some(GAttr::AltActive("true".into()))];
+        for c in &comments {
+            for a in &actives {
+                for rebind in [false, true] {
+                    for flip in [false, true] {
+                        let mut attrs = vec![c.clone()];
+                        if let Some(a) = a {
+                            attrs.push(a.clone());
+                        }
+                        if flip {
+                            attrs.reverse();
+                        }
+                        if rebind {
+                            attrs.insert(if flip { attrs.len() } else { 0 }, GAttr::Rebind);
+                        }
+                        cases.push(plain_case(vec![witness.clone(), GStmt { attrs: attrs.clone(), body: std_body("n0") }]));
+                        cases.push(plain_case(vec![GStmt { attrs, body: std_body("n0") }]));
+                    }
+                }
+            }
+        }
+        // an un-annotated statement whose `jcmd:` prefix is not the jcmd namespace
+        cases.push(plain_case(vec![GStmt { attrs: vec![GAttr::Rebind, GAttr::Comment(PLAIN.into())], body: std_body("n0") }]));
+    }
     // duplicate names among managed / unmanaged statements
     let managed = |n: &str| GStmt { attrs: vec![GAttr::Ns, GAttr::Comment(GOOD.into())], body: std_body(n) };
     let variants: Vec<(&str, GStmt)> = vec![
@@ -676,6 +736,22 @@ fn random_case(rng: &mut Rng) -> Case {
         }
         for _ in 0..rng.below(3) {
             attrs.push(GAttr::Other(rng.below(7) as u8));
+        }
+        if rng.chance(1, 8) {
+            // the same namespace under another prefix
+            for a in attrs.iter_mut() {
+                if rng.chance(1, 2) {
+                    *a = match a.clone() {
+                        GAttr::Active(v) => GAttr::AltActive(v),
+                        GAttr::Comment(v) => GAttr::AltComment(v),
+                        x => x,
+                    };
+                }
+            }
+        } else if rng.chance(1, 12) {
+            // the prefix `jcmd` bound to another namespace on this statement
+            attrs.retain(|a| !matches!(a, GAttr::Ns));
+            attrs.push(GAttr::Rebind);
         }
         if rng.chance(1, 2) {
             rng.shuffle(&mut attrs);
